@@ -508,6 +508,31 @@ func runAgent(sc agentScript) (obs agentObs) {
 					}
 					time.Sleep(10 * time.Millisecond)
 				}
+				// quiescence on the agent's side too: an ACK the upstream has written may not have been read yet; the counters
+				// are compared "at quiescence", so give the client a bounded time to consume what the upstream acknowledged
+				ackedAtUpstream := func() int64 {
+					ids := map[string]bool{}
+					for _, u := range []*upstream{up, up2} {
+						if u == nil {
+							continue
+						}
+						u.mu.Lock()
+						for _, ch := range u.chunks {
+							if ch.acked {
+								ids[ch.id] = true
+							}
+						}
+						u.mu.Unlock()
+					}
+					return int64(len(ids))
+				}
+				for deadline := time.Now().Add(2 * time.Second); time.Now().Before(deadline); {
+					cur := dumpGatherer(ld.GetMetricGatherer())["process_buffer_consumed_chunks_total"]
+					if obs.metrics["process_buffer_consumed_chunks_total"]+cur >= ackedAtUpstream() {
+						break
+					}
+					time.Sleep(5 * time.Millisecond)
+				}
 			} else if g < len(sc.stopMs) {
 				time.Sleep(time.Duration(sc.stopMs[g]) * time.Millisecond)
 			}
